@@ -247,6 +247,46 @@ impl<'a> Gen<'a> {
         self.emit(format!("tx {} {} pm route {} {} {} {}", sender, funds_str(&[coin(amt, start_denom)]), s, mr, recv, ms));
     }
 
+    /// directed scenario for C17: a multi-hop route with swaps disabled on the pool of ONE hop (first,
+    /// middle or last); the owner may have moved on, then the current owner's attempt simply fails
+    pub fn op_scenario_disabled_route(&mut self) {
+        let pools = self.pools();
+        let live: Vec<_> = pools.iter().filter(|p| !p.total_share.amount.is_zero()).collect();
+        if live.len() < 2 { return self.op_provide(); }
+        for _attempt in 0..6 {
+            let first = live[self.r.below(live.len() as u64) as usize];
+            let mut cur = first.pool_info.assets[self.r.below(first.pool_info.assets.len() as u64) as usize].denom.clone();
+            let start_denom = cur.clone();
+            let mut ops: Vec<(String, String, String)> = vec![];
+            let mut offer_res = 0u128;
+            let hops = 2 + self.r.below(2) as usize;
+            for k in 0..hops {
+                // prefer a pool not used yet
+                let cands: Vec<_> = live.iter().filter(|p| p.pool_info.assets.iter().any(|a| a.denom == cur) && !ops.iter().any(|o| o.2 == p.pool_info.pool_identifier)).collect();
+                if cands.is_empty() { break; }
+                let p = cands[self.r.below(cands.len() as u64) as usize];
+                let outs: Vec<_> = p.pool_info.assets.iter().filter(|a| a.denom != cur).collect();
+                let out = outs[self.r.below(outs.len() as u64) as usize].denom.clone();
+                if k == 0 { offer_res = p.pool_info.assets.iter().find(|a| a.denom == cur).unwrap().amount.u128(); }
+                ops.push((cur.clone(), out.clone(), p.pool_info.pool_identifier.clone()));
+                cur = out;
+            }
+            if ops.len() < 2 { continue; }
+            let j = self.r.below(ops.len() as u64) as usize;
+            let j = if self.r.chance(1, 2) { ops.len() - 1 } else { j };
+            let pid = ops[j].2.clone();
+            self.emit(format!("tx owner 0 pm config - - - - {} false - -", pid));
+            let amt = offer_res / 10_000 + 1;
+            let sender = pick_user(self.r);
+            let mut s = format!("{}", ops.len());
+            for (i, o_, p) in ops.iter() { s += &format!(" {} {} {}", i, o_, p); }
+            self.emit(format!("tx {} {} pm route {} - - 500000000000000000", sender, funds_str(&[coin(amt, start_denom)]), s));
+            if self.r.chance(2, 3) { self.emit(format!("tx owner 0 pm config - - - - {} true - -", pid)); }
+            return;
+        }
+        self.op_route()
+    }
+
     pub fn op_pm_config(&mut self) {
         let pools = self.pools();
         let sender = if self.r.chance(5, 6) { "owner" } else { pick_user(self.r) };
@@ -643,7 +683,8 @@ pub fn gen_pm_case(r: &mut Rng, id: u64, len: u64, faults: bool, o: &mut Out) {
             2..=9 => g.op_provide(),
             10..=19 => g.op_swap(),
             20..=23 => g.op_withdraw(),
-            24..=28 => g.op_route(),
+            24..=27 => g.op_route(),
+            28 => if g.r.chance(1, 2) { g.op_scenario_disabled_route() } else { g.op_route() },
             29 | 30 => g.op_pm_config(),
             31 => g.op_own("pm"),
             32 => g.op_donate(),
